@@ -27,6 +27,7 @@ RULE = (
     "list x seeded chunk size in {1,2,n//p,n} x seeded 0-5 ms delays before/after every task; each "
     "item also requested alone.  Non-trivial when multi-process with >= 2 tasks per worker; "
     "distinct by (function, model hash, processes, permutation hash, chunk size)."
+    " Items are given as objects in 40 % of the schedules; OptGP samplers are asked repeatedly (sample(8); sample(5); batch(3, 2)) with a differential oracle for the sampler's give-up."  # third-session additions
 )
 ASSUMPTIONS = [
     "values compared with 1e-6 relative; fork start method (platform default)",
